@@ -2,7 +2,10 @@
 package checks
 
 import (
+	"crypto"
 	"fmt"
+	"os"
+	"path/filepath"
 	"sort"
 	"strings"
 	"time"
@@ -102,13 +105,13 @@ func (d *Dir) Render(w *simfs.World) {
 
 // Artifact is the decoded content of an entity's PEM file.
 type Artifact struct {
-	Exists bool
-	Pem    *refx509.PemFile
-	Cert   *refx509.Cert
+	Exists  bool
+	Pem     *refx509.PemFile
+	Cert    *refx509.Cert
 	CertErr error
-	Key    *refx509.PrivateKey
-	KeyErr error
-	CSR    *refx509.CSR
+	Key     *refx509.PrivateKey
+	KeyErr  error
+	CSR     *refx509.CSR
 }
 
 func ReadArtifact(w *simfs.World, cfgPath string) *Artifact {
@@ -170,4 +173,34 @@ func cnOf(dn []refx509.RDN) string {
 		}
 	}
 	return ""
+}
+
+// FixtureKeyPEM returns the PEM text of a pre-generated test key, e.g.
+// "RSA-2048-0", "P-256-1", "brainpoolP384r1-0".
+func FixtureKeyPEM(name string) []byte {
+	b, err := os.ReadFile(filepath.Join(engine.VerifDir(), "fixtures", "keys", name+".pem"))
+	if err != nil {
+		panic("fixture key missing: " + name + ": " + err.Error())
+	}
+	return b
+}
+
+// FixtureKeyDER returns the PKCS#8 DER of a fixture key.
+func FixtureKeyDER(name string) []byte {
+	p := refx509.SplitPem(FixtureKeyPEM(name))
+	return p.KeyDER
+}
+
+// FixtureForAlg maps a configuration keyAlgorithm name to a fixture key.
+func FixtureForAlg(alg string, n int) string { return fmt.Sprintf("%s-%d", alg, n) }
+
+func fixedTime(year int) time.Time { return time.Date(year, 1, 1, 0, 0, 0, 0, time.UTC) }
+
+// signerPublic returns the public half of a crypto.Signer-like private key.
+func signerPublic(k any) any {
+	type pub interface{ Public() crypto.PublicKey }
+	if p, ok := k.(pub); ok {
+		return p.Public()
+	}
+	return nil
 }
